@@ -79,6 +79,55 @@ func runC10(w *World, r *Report) {
 	info := so.info
 	in := so.inbound
 	ipos := w.Pos(in.Decl.Pos())
+	// the de-framer may be split into steps: helper functions and methods the reader calls (also methods of
+	// a struct that holds the de-framing state) are read together with the reader's own body
+	bodies := []*ast.BlockStmt{in.Decl.Body}
+	{
+		seen := map[*FuncInfo]bool{in: true, so.parse: true}
+		for i := 0; i < len(bodies) && i < 16; i++ {
+			ast.Inspect(bodies[i], func(n ast.Node) bool {
+				switch x := n.(type) {
+				case *ast.GoStmt:
+					return false
+				case *ast.CallExpr:
+					if fn, ok := typeutil.Callee(info, x).(*types.Func); ok {
+						if hf := w.FuncOf(fn); hf != nil && !seen[hf] && hf.Pkg == in.Pkg && hf.Decl.Body != nil {
+							seen[hf] = true
+							bodies = append(bodies, hf.Decl.Body)
+						}
+					}
+				}
+				return true
+			})
+		}
+	}
+	inspectAll := func(f func(ast.Node) bool) {
+		for _, b := range bodies {
+			ast.Inspect(b, f)
+		}
+	}
+	// a piece of state is a local variable of the reader or a field of a state struct of its own
+	streamFields := map[types.Object]bool{}
+	for _, f := range []*types.Var{so.conn, so.poolFull, so.poolEmpty, so.inboundF, so.errorF, so.shutdownF, so.outboundF} {
+		if f != nil {
+			streamFields[f] = true
+		}
+	}
+	cellObj := func(e ast.Expr) types.Object {
+		if o := identObj(info, e); o != nil {
+			return o
+		}
+		if se, ok := unparen(e).(*ast.SelectorExpr); ok {
+			if sel := info.Selections[se]; sel != nil && sel.Kind() == types.FieldVal {
+				if fv, ok := sel.Obj().(*types.Var); ok && !streamFields[fv] {
+					if _, isChan := fv.Type().Underlying().(*types.Chan); !isChan {
+						return fv
+					}
+				}
+			}
+		}
+		return nil
+	}
 
 	// ---------------------------------------------------------------- roles of the locals of inbound
 	var readCall *ast.CallExpr
@@ -113,21 +162,21 @@ func runC10(w *World, r *Report) {
 	var bufObj, hdrBufObj, hdrObj, remObj types.Object
 	var fullSend *ast.SendStmt
 	var remAssign *ast.AssignStmt
-	ast.Inspect(in.Decl.Body, func(n ast.Node) bool {
+	inspectAll(func(n ast.Node) bool {
 		switch x := n.(type) {
 		case *ast.SendStmt:
 			if fieldOf(info, x.Chan) == so.poolFull {
 				fullSend = x
-				bufObj = identObj(info, x.Value)
+				bufObj = cellObj(x.Value)
 			}
 		case *ast.AssignStmt:
 			// hdrBuf[hdr] = ...
 			if len(x.Lhs) == 1 {
 				if ix, ok := unparen(x.Lhs[0]).(*ast.IndexExpr); ok && isByteSliceOrArray(info.TypeOf(ix.X)) {
-					if o, i := identObj(info, ix.X), identObj(info, ix.Index); o != nil && i != nil {
+					if o, i := cellObj(ix.X), cellObj(ix.Index); o != nil && i != nil {
 						// the prefix buffer is the one later read with a 16-bit big-endian read
 						hdrBufObjCand, hdrObjCand := o, i
-						ast.Inspect(in.Decl.Body, func(m ast.Node) bool {
+						inspectAll(func(m ast.Node) bool {
 							if c, ok := m.(*ast.CallExpr); ok {
 								if fn, ok := typeutil.Callee(info, c).(*types.Func); ok && fn.Pkg() != nil && fn.Pkg().Path() == "encoding/binary" && fn.Name() == "Uint16" && len(c.Args) == 1 && usesObj(info, c.Args[0], hdrBufObjCand) {
 									hdrBufObj, hdrObj = hdrBufObjCand, hdrObjCand
@@ -138,7 +187,7 @@ func runC10(w *World, r *Report) {
 					}
 				}
 				// rem = int(binary.BigEndian.Uint16(hdrBuf[2:])) - 4
-				if o := identObj(info, x.Lhs[0]); o != nil && len(x.Rhs) == 1 {
+				if o := cellObj(x.Lhs[0]); o != nil && len(x.Rhs) == 1 {
 					has16 := false
 					ast.Inspect(x.Rhs[0], func(m ast.Node) bool {
 						if c, ok := m.(*ast.CallExpr); ok {
@@ -179,7 +228,38 @@ func runC10(w *World, r *Report) {
 	case *ast.RangeStmt:
 		loopBody = l.Body
 	}
+	// a state struct: the variable of the reader that holds it stands for its fields
+	holderOf := func(o types.Object) types.Object {
+		fv, ok := o.(*types.Var)
+		if !ok || !fv.IsField() {
+			return o
+		}
+		var holder types.Object
+		ast.Inspect(in.Decl.Body, func(n ast.Node) bool {
+			id, ok := n.(*ast.Ident)
+			if !ok || holder != nil {
+				return true
+			}
+			lo, isVar := info.ObjectOf(id).(*types.Var)
+			if !isVar || lo.IsField() {
+				return true
+			}
+			if st := structOf(lo.Type()); st != nil {
+				for i := 0; i < st.NumFields(); i++ {
+					if st.Field(i) == fv {
+						holder = lo
+					}
+				}
+			}
+			return true
+		})
+		if holder == nil {
+			return o
+		}
+		return holder
+	}
 	for _, rl := range roles {
+		rl.o = holderOf(rl.o)
 		dp := rl.o.Pos()
 		if loopBody.Pos() <= dp && dp < loopBody.End() {
 			r.Fail(VViolation, "carried", in.Key, rl.name, w.Pos(dp), fmt.Sprintf("the %s (%s) is declared inside the loop that calls conn.Read: it is re-initialised on every read, so a frame split across two reads at this point is lost or mis-framed", rl.name, rl.o.Name()))
@@ -190,7 +270,7 @@ func runC10(w *World, r *Report) {
 		for _, st := range loopBody.List {
 			if as, ok := st.(*ast.AssignStmt); ok {
 				for _, l := range as.Lhs {
-					if identObj(info, l) == rl.o {
+					if cellObj(l) == rl.o {
 						reinit = true
 					}
 				}
@@ -206,11 +286,11 @@ func runC10(w *World, r *Report) {
 	// ---------------------------------------------------------------- complete
 	// (a) constant length P of the prefix buffer
 	P := int64(-1)
-	ast.Inspect(in.Decl.Body, func(n ast.Node) bool {
+	inspectAll(func(n ast.Node) bool {
 		switch x := n.(type) {
 		case *ast.AssignStmt:
 			for i, l := range x.Lhs {
-				if identObj(info, l) == hdrBufObj && i < len(x.Rhs) {
+				if cellObj(l) == hdrBufObj && i < len(x.Rhs) {
 					if c, ok := unparen(x.Rhs[i]).(*ast.CallExpr); ok {
 						if id, ok := c.Fun.(*ast.Ident); ok && id.Name == "make" && len(c.Args) >= 2 {
 							if v, ok := constIntOf(info, c.Args[1]); ok {
@@ -228,9 +308,25 @@ func runC10(w *World, r *Report) {
 					}
 				}
 			}
+		case *ast.KeyValueExpr:
+			// a field of the state struct set in its literal: hdrBuf: make([]byte, 4)
+			if id, ok := x.Key.(*ast.Ident); ok && info.ObjectOf(id) == hdrBufObj {
+				if c, ok := unparen(x.Value).(*ast.CallExpr); ok {
+					if mk, ok := c.Fun.(*ast.Ident); ok && mk.Name == "make" && len(c.Args) >= 2 {
+						if v, ok := constIntOf(info, c.Args[1]); ok {
+							P = v
+						}
+					}
+				}
+			}
 		}
 		return true
 	})
+	if P < 0 {
+		if n, ok := isByteArray(hdrBufObj.Type()); ok {
+			P = n // an array-typed field
+		}
+	}
 	if P < 0 {
 		r.Fail(VUndecided, "complete", in.Key, "prefix-length", w.Pos(hdrBufObj.Pos()), "the prefix buffer's length is not a constant")
 	} else {
@@ -239,7 +335,7 @@ func runC10(w *World, r *Report) {
 	// (b) comparisons of the prefix count with constants use P
 	nCmp := 0
 	okCmp := true
-	ast.Inspect(in.Decl.Body, func(n ast.Node) bool {
+	inspectAll(func(n ast.Node) bool {
 		be, ok := n.(*ast.BinaryExpr)
 		if !ok {
 			return true
@@ -250,9 +346,9 @@ func runC10(w *World, r *Report) {
 			return true
 		}
 		var other ast.Expr
-		if identObj(info, be.X) == hdrObj {
+		if cellObj(be.X) == hdrObj {
 			other = be.Y
-		} else if identObj(info, be.Y) == hdrObj {
+		} else if cellObj(be.Y) == hdrObj {
 			other = be.X
 		}
 		if other == nil {
@@ -261,7 +357,7 @@ func runC10(w *World, r *Report) {
 		nCmp++
 		v, isC := constIntOf(info, other)
 		strict := be.Op == token.LSS || be.Op == token.GEQ
-		if identObj(info, be.Y) == hdrObj {
+		if cellObj(be.Y) == hdrObj {
 			strict = be.Op == token.GTR || be.Op == token.LEQ
 		}
 		if !isC || !strict || v != P {
@@ -299,7 +395,7 @@ func runC10(w *World, r *Report) {
 				var base types.Object
 				if sl, ok := unparen(c16.Args[0]).(*ast.SliceExpr); ok && sl.Low != nil {
 					lo, _ = constIntOf(info, sl.Low)
-					base = identObj(info, sl.X)
+					base = cellObj(sl.X)
 				}
 				switch {
 				case fn.Name() != "Uint16":
@@ -323,13 +419,13 @@ func runC10(w *World, r *Report) {
 	}
 	// (d) the hand-off is enclosed in `remaining == 0`
 	enclosed := false
-	ast.Inspect(in.Decl.Body, func(n ast.Node) bool {
+	inspectAll(func(n ast.Node) bool {
 		is, ok := n.(*ast.IfStmt)
 		if !ok || !(is.Body.Pos() <= fullSend.Pos() && fullSend.End() <= is.Body.End()) {
 			return true
 		}
 		if be, ok := unparen(is.Cond).(*ast.BinaryExpr); ok && (be.Op == token.EQL || be.Op == token.LEQ) {
-			if identObj(info, be.X) == remObj {
+			if cellObj(be.X) == remObj {
 				if v, isC := constIntOf(info, be.Y); isC && v == 0 {
 					enclosed = true
 				}
@@ -349,10 +445,10 @@ func runC10(w *World, r *Report) {
 	inlineDepth := 0
 	classifyIn = func(n ast.Node, emit func(cfgEvent)) {
 		// a call of a helper of the stream: its channel operations happen here, in the helper's statement order
-		if es, ok := n.(*ast.ExprStmt); ok && inlineDepth < 2 {
+		if es, ok := n.(*ast.ExprStmt); ok && inlineDepth < 4 {
 			if c, ok := es.X.(*ast.CallExpr); ok {
 				if fn, ok := typeutil.Callee(info, c).(*types.Func); ok {
-					if hf := w.FuncOf(fn); hf != nil && hf != in && hf.Recv != nil && hf.Recv == in.Recv && hf.Decl.Body != nil {
+					if hf := w.FuncOf(fn); hf != nil && hf != in && hf.Pkg == in.Pkg && hf != so.parse && hf.Decl.Body != nil {
 						inlineDepth++
 						var walk func(list []ast.Stmt)
 						walk = func(list []ast.Stmt) {
@@ -364,7 +460,13 @@ func runC10(w *World, r *Report) {
 									walk(b.Body.List)
 									if eb, ok := b.Else.(*ast.BlockStmt); ok {
 										walk(eb.List)
+									} else if ei, ok := b.Else.(*ast.IfStmt); ok {
+										walk([]ast.Stmt{ei})
 									}
+								case *ast.ForStmt:
+									walk(b.Body.List)
+								case *ast.RangeStmt:
+									walk(b.Body.List)
 								default:
 									classifyIn(st, emit)
 								}
@@ -378,7 +480,7 @@ func runC10(w *World, r *Report) {
 			}
 		}
 		if s, ok := isSendTo(info, n, so.poolFull); ok {
-			emit(cfgEvent{Kind: "S", Node: n, Obj: identObj(info, s.Value)})
+			emit(cfgEvent{Kind: "S", Node: n, Obj: cellObj(s.Value)})
 			return
 		}
 		if s, ok := isSendTo(info, n, so.errorF); ok {
@@ -392,11 +494,11 @@ func runC10(w *World, r *Report) {
 			return
 		}
 		if as, ok := n.(*ast.AssignStmt); ok && len(as.Lhs) == 1 && len(as.Rhs) == 1 {
-			if identObj(info, as.Lhs[0]) == bufObj && chanRecvOf(info, as.Rhs[0], so.poolEmpty) {
+			if cellObj(as.Lhs[0]) == bufObj && chanRecvOf(info, as.Rhs[0], so.poolEmpty) {
 				emit(cfgEvent{Kind: "G", Node: n})
 				return
 			}
-			if identObj(info, as.Lhs[0]) == hdrObj {
+			if cellObj(as.Lhs[0]) == hdrObj {
 				if v, isC := constIntOf(info, as.Rhs[0]); isC && v == 0 {
 					emit(cfgEvent{Kind: "Z", Node: n})
 					return
